@@ -161,6 +161,10 @@ def length_tuples(W, nmax):
     out = []
     for n in range(1, nmax + 1):
         out += list(itertools.product(alpha, repeat=n))
+    # a series with exactly W rows (one stacked window) in every position, next to longer ones
+    for n in range(2, min(nmax, 3) + 1):
+        for pos in range(n):
+            out.append(tuple(W if i == pos else W + 5 + i for i in range(n)))
     return out
 
 
@@ -189,7 +193,7 @@ def run(ctx):
     ctx.cov["exhaustive"] = True
     ctx.cov["rule"] = (
         "single: N in {1,2,3} x W in 1..6 x K in {2,3} x T in {W+5,W+6,W+9}; joint: every tuple (every order) of "
-        "1..n series with lengths from {W+4,W+5,W+8}, n = 3 for K=2 and NW<=6, 2 up to NW<=8 (thorough: 6 for "
+        "1..n series with lengths from {W+4,W+5,W+8} (plus tuples with one series of exactly W rows in every position), n = 3 for K=2 and NW<=6, 2 up to NW<=8 (thorough: 6 for "
         "NW<=2, 4 for NW<=4, 3 beyond, both K); scripted contiguous-block initial labelling, virtual pool, limit 3; "
         "plus 6 runs on the untouched default path (real GMM, real pool). Oracle on the result: T labels, margins "
         "exactly floor((W-1)/2) / (W-1)-floor((W-1)/2) of -1, all others integers in [0,K), K MRFs of NW x NW, K "
